@@ -32,6 +32,8 @@ if any(d.get("async") for d in world["steplib"]["defs"]):
 R.reset_behave_globals(world)
 if world["cfg"].get("pre_handler"):
     logging.getLogger().addHandler(R.PreHandler())
+    if world["cfg"]["pre_handler"] == 2:
+        logging.getLogger().addHandler(R.PreStreamHandler())
 if any(f[0] == "rec" for f in world["cfg"]["formatters"]):
     from behave.formatter import _registry as _freg
     _freg.register_as("rec", R.make_rec_formatter_class())
